@@ -287,6 +287,11 @@ def magic_constants():
     # RFC 8446 s4.1.3 downgrade sentinels (last 8 octets of ServerHello.random)
     found.setdefault(b'DOWNGRD\x01', 'rfc8446.downgrade_tls12')
     found.setdefault(b'DOWNGRD\x00', 'rfc8446.downgrade_tls11')
+    # words a parser compares with computed constants rather than named ones: the all-ones word of every field
+    # width ("forever" timestamps, maximum lengths, -1) and the all-zero word
+    for width in (2, 3, 4, 8):
+        found.setdefault(b'\xff' * width, 'all_ones_%d' % width)
+        found.setdefault(b'\x00' * width, 'all_zero_%d' % width)
     _MAGIC = sorted((name, val) for val, name in found.items())
     return _MAGIC
 
